@@ -27,6 +27,8 @@ fn main() {
             let f = BufReader::new(std::fs::File::open(&cases).expect("cases file"));
             let mut st = ops::State::default();
             let mut n = 0u64;
+            // distinct inputs: non-trivial cases are counted once per distinct input
+            let mut seen: std::collections::HashSet<u64> = std::collections::HashSet::new();
             for line in f.lines() {
                 let line = line.unwrap();
                 if line.trim().is_empty() {
@@ -45,7 +47,10 @@ fn main() {
                 if obs.is_null() && res.is_none() {
                     continue; // header record
                 }
-                let (evals, nontrivial) = res.as_ref().map(|o| (o.evals, o.nontrivial)).unwrap_or((1, 0));
+                let (evals, mut nontrivial) = res.as_ref().map(|o| (o.evals, o.nontrivial)).unwrap_or((1, 0));
+                if nontrivial > 0 && !seen.insert(pkgsrc_conform::util::hash64(&format!("{}{}", op, case["in"]))) {
+                    nontrivial = 0;
+                }
                 // row operations depend on a header record; give every mismatch a self-contained
                 // equivalent ("replay_as") that bin/check --replay can run on its own
                 let ms = ops::compare(&st, &op, &case, &obs)
